@@ -162,7 +162,7 @@ def d3(cx: Cx, ob: Ob) -> None:
     scan_none_discipline(cx, ob, none_scope(cx))
 
 
-@obligation("C02-D4", "IDX: prefix_map maps every prefix and synonym to the canonical URI prefix, synonym_to_prefix to the canonical prefix; constructor and _index agree", floor=8)
+@obligation("C02-D4", "IDX: prefix_map maps every prefix and synonym to the canonical URI prefix, synonym_to_prefix to the canonical prefix; constructor and _index agree", floor=4)
 def d4(cx: Cx, ob: Ob) -> None:
     check_table_roles(cx, ob, ["prefix_map", "synonym_to_prefix"])
 
